@@ -493,8 +493,12 @@ fn fam_structure(tier: &str) -> Report {
         "|v: u8| -> Buf<{ W }, u8> { v }", "|x: Vec<Vec<u8>>| x", "g::<u8, u16>", "(|x| -> u8 { x }, b..c)", "[a <= b, c >> 1]",
         "{ match a { 1 => b, _ => c } }", "m!(a |> b, c <<< d ~ e)", "\"|> => ~ , <<<\"", "h(|a| -> u8 { a }, b..c)", "a >> 2", "a < b", "a == b", "(a..b)",
         "if a > b { c } else { d }", "match a { 1 => b, _ => c }", "&mut a", "a as u8", "-a",
+        // operands ending with an index, a field, a macro call, a turbofish call (the try operator: section 7)
+        "a[0]", "a.b.0", "m![a, b]", "c::<u8>()",
     ];
     let opn = if tier == "thorough" { operands.len() } else { 19 };
+    let _ = opn;
+    let opn = operands.len().min(if tier == "thorough" { operands.len() } else { 34 });
     let mut render_h = |acts: &[Act], init: &str, handler: Option<(&str, bool)>, r: &mut Report| {
         let mut s = String::from(init);
         let mut exp: Vec<(String, bool, &str, Vec<String>)> = vec![("Single".into(), false, "None", vec![squeeze(init)])];
@@ -631,6 +635,25 @@ fn fam_structure(tier: &str) -> Report {
         // a block INITIAL value directly followed by a handler
         for kw in ["then", "map", "and_then"] {
             render_h(&[], "{ init() }", Some((kw, false)), &mut r);
+        }
+    }
+    // 7. operands ENDING with the try operator `?` are complete operands: followed by the end of the branch, by a deferred
+    //    operator, or by an operator whose first character does not form another documented operator with that `?`
+    //    (`a? >^> b` IS `a ?> ^> b`: the spelling is ambiguous by design, so those are left out)
+    for (op1, _, _) in OPS.iter() {
+        if ["<<<", "..", ">.", "^@", "?^@", "<->", "=>[]", "?&!>"].contains(op1) { continue; }
+        if operand_for(op1, 0).len() != 1 { continue; }
+        for q in ["a?", "g(x)?.h()?"] {
+            let amb1 = [">", "|", "@", "?", "^", "&"].iter().any(|c| op1.starts_with(c));
+            render_h(&[Act { op: op1, deferred: false, wrap: false, operands: vec![q.to_string()] }], if amb1 { "init()" } else { "init()?" }, None, &mut r);
+            render_h(&[Act { op: op1, deferred: true, wrap: false, operands: vec![q.to_string()] }], "init()?", None, &mut r);
+            for (op2, _, _) in OPS.iter() {
+                if *op2 == "<<<" { continue; }
+                for d in [false, true] {
+                    if !d && [">", "|", "@", "?", "^", "&"].iter().any(|c| op2.starts_with(c)) { continue; }
+                    render_h(&[Act { op: op1, deferred: false, wrap: false, operands: vec![q.to_string()] }, Act { op: op2, deferred: d, wrap: false, operands: operand_for(op2, 0) }], "init()", None, &mut r);
+                }
+            }
         }
     }
     r.exhaustive = true;
